@@ -805,6 +805,40 @@ where
 
 
 // ---------------------------------------------------------------------------------------------
+// bigauto <dt> <level> <kind> <n> <seed>: auto_compressor_config / auto_compress / auto_decompress on inputs too long
+// for a request line (more than DEFAULT_CHUNK_SIZE numbers: several chunks)
+//   -> ok order=<o> level=<l> rt=<0|1> len=<decoded length> n=<n> size=<bytes>
+
+fn cmd_bigauto<T: Ty>(args: &[&str]) -> String
+where
+  T::Signed: Ty,
+{
+  let level: usize = args[0].parse().unwrap();
+  let kind = args[1];
+  let n: usize = args[2].parse().unwrap();
+  let mut seed: u64 = args[3].parse().unwrap();
+  let w = T::PHYSICAL_BITS.min(64) as u32;
+  let mask: u128 = if T::PHYSICAL_BITS == 8 { 1 } else { (1u128 << w) - 1 };
+  let mut nums: Vec<T> = Vec::with_capacity(n);
+  for i in 0..n {
+    let pat = match kind {
+      "uniform" => splitmix(&mut seed) as u128 & mask,
+      "smooth" => ((i as u128) * 3 + (splitmix(&mut seed) % 3) as u128) & mask & (mask >> 1),
+      "sparse" => if splitmix(&mut seed) % 50 == 0 { (splitmix(&mut seed) as u128 & mask).max(1) } else { 0 },
+      _ => return "bad-kind".to_string(),
+    };
+    nums.push(T::from_pat(pat));
+  }
+  let cfg = q_compress::auto_compressor_config(&nums, level);
+  let bytes = q_compress::auto_compress(&nums, level);
+  let (rt, len) = match q_compress::auto_decompress::<T>(&bytes) {
+    Ok(v) => ((v.len() == nums.len() && v.iter().zip(nums.iter()).all(|(a, b)| a.to_pat() == b.to_pat())) as u8, v.len()),
+    Err(_) => (0, 0),
+  };
+  format!("ok order={} level={} rt={} len={} n={} size={}", cfg.delta_encoding_order, cfg.compression_level, rt, len, n, bytes.len())
+}
+
+// ---------------------------------------------------------------------------------------------
 // mt <dt> <level> <order> <gcds> <threads> <nums>: the same chunk compressed concurrently in several
 // threads (each with its own Compressor, after a different number of warm-up chunks)
 //   -> ok same=<0|1> bytes=<chunk bytes of thread 0>
@@ -860,6 +894,40 @@ where
 //   bwords <piece,piece,...> <free,free,...>   -> words=<hex,...> bits=<n>
 //   bread  <piece,piece,...> <op> <op> ...     -> answers joined by " ; "
 //   bwrite <op> <op> ...                        -> answers joined by " ; "
+
+// the run-length arm of training, observed through the public API only: a u32 chunk of `count` zeros and n - count
+// distinct, far-apart values at level 12 without GCDs; the range holding exactly the zeros has a jumpstart or not
+//   -> "1 <jumpstart>" | "0 0"
+fn runlen_public(count: usize, n: usize) -> String {
+  let mut nums: Vec<u32> = vec![0; count];
+  for i in 0..(n - count) {
+    nums.push(1000 + (i as u32) * 200);
+  }
+  let config = CompressorConfig::default().with_compression_level(12).with_use_gcds(false);
+  let mut c = Compressor::<u32>::from_config(config);
+  if c.header().is_err() {
+    return "err".to_string();
+  }
+  match c.chunk(&nums) {
+    Ok(meta) => {
+      let ps = match &meta.prefix_metadata {
+        PrefixMetadata::Simple { prefixes } => prefixes.clone(),
+        _ => return "err".to_string(),
+      };
+      for p in ps {
+        if p.lower == 0 {
+          return match p.run_len_jumpstart {
+            Some(j) if p.upper == 0 => format!("1 {}", j),
+            Some(_) => "wide".to_string(),
+            None => "0 0".to_string(),
+          };
+        }
+      }
+      "none".to_string()
+    }
+    Err(e) => format!("err {}", kind_str(&e)),
+  }
+}
 
 #[cfg(mwlon_quantile_compression_verif)]
 fn cmd_bits(toks: &[&str]) -> String {
@@ -992,8 +1060,10 @@ fn answer(line: &str) -> String {
       "rt" => dispatch!(toks[1], cmd_rt, &toks[2..]),
       "mt" => dispatch!(toks[1], cmd_mt, &toks[2..]),
       "bigrt" => dispatch!(toks[1], cmd_bigrt, &toks[2..]),
+      "bigauto" => dispatch!(toks[1], cmd_bigauto, &toks[2..]),
       "ts" => cmd_ts(&toks[1..]),
       "consts" => cmd_consts(),
+      "floatfns" if toks.len() > 3 && toks[1] == "runlen" => runlen_public(toks[2].parse().unwrap(), toks[3].parse().unwrap()),
       "bwords" | "bread" | "bwrite" | "bodywrite" | "numdec" | "floatfns" => cmd_bits(&toks),
       _ => "bad-op".to_string(),
     }
